@@ -32,6 +32,7 @@ import (
 
 	"rscheck/cfgq"
 	"rscheck/core"
+	"rscheck/pat"
 )
 
 // Spec configures one extraction.
@@ -50,6 +51,12 @@ type Spec struct {
 	// FixFromMake: token produced by `<prim>(buf)` where buf = make([]byte, k):
 	// primitive name -> format with %d (e.g. "readFull" -> "Fix%d").
 	BufPrims map[string]string
+	// IfacePrims maps method names to tokens for calls through an interface value
+	// (a helper that takes the reader as a small interface).
+	IfacePrims map[string]string
+	// Classify, when set, is consulted first: it may give a call its own token
+	// (e.g. depending on the arguments written).
+	Classify func(info *types.Info, call *ast.CallExpr, f *types.Func) (string, bool)
 	// FieldBufLen gives the constant length of scratch-buffer fields
 	// (verified separately by the rule that uses it).
 	FieldBufLen map[string]int64
@@ -69,6 +76,9 @@ type Extractor struct {
 	tagVal *int64
 	bufLen map[types.Object]int64
 	depth  int
+
+	tokOf     map[*ast.CallExpr]*node    // primitive call -> its token
+	inlineRes map[*ast.CallExpr][]string // inlined helper call -> bindings of its first result
 }
 
 // New creates an extractor.
@@ -76,7 +86,8 @@ func New(c *core.Ctx, s *Spec) *Extractor {
 	if s.MaxDepth == 0 {
 		s.MaxDepth = 4
 	}
-	return &Extractor{C: c, S: s, binds: map[types.Object][]string{}, used: map[string]bool{}, bufLen: map[types.Object]int64{}}
+	return &Extractor{C: c, S: s, binds: map[types.Object][]string{}, used: map[string]bool{}, bufLen: map[types.Object]int64{},
+		tokOf: map[*ast.CallExpr]*node{}, inlineRes: map[*ast.CallExpr][]string{}}
 }
 
 func (e *Extractor) undec(format string, a ...interface{}) {
@@ -139,7 +150,14 @@ func (e *Extractor) render(n *node) string {
 		if n.text == "?" && controlOnly(n) {
 			return "" // early exits under an opaque condition are not wire grammar
 		}
-		return "Alt[" + n.text + "]{" + e.render(n.kids[0]) + "|" + e.render(n.kids[1]) + "}"
+		a, b := e.render(n.kids[0]), e.render(n.kids[1])
+		if a == "" && b == "" {
+			return "" // neither branch consumes anything
+		}
+		if n.text == "?" && (a == "" || b != "" && b > a) {
+			a, b = b, a // an opaque condition has no orientation: canonical order
+		}
+		return "Alt[" + n.text + "]{" + a + "|" + b + "}"
 	case "sw":
 		if controlOnly(n) {
 			return ""
@@ -360,8 +378,15 @@ func (e *Extractor) callToken(info *types.Info, c *ast.CallExpr) *node {
 		return nil
 	}
 	name := core.FuncName(f)
+	if e.S.Classify != nil {
+		if tok, ok := e.S.Classify(info, c, f); ok {
+			return &node{kind: "tok", text: tok}
+		}
+	}
 	if tok, ok := e.S.Prims[name]; ok {
-		return &node{kind: "tok", text: tok}
+		t := &node{kind: "tok", text: tok}
+		e.tokOf[c] = t
+		return t
 	}
 	if fmtStr, ok := e.S.BufPrims[name]; ok && len(c.Args) >= 1 {
 		// width from the buffer argument
@@ -395,6 +420,13 @@ func (e *Extractor) callToken(info *types.Info, c *ast.CallExpr) *node {
 	if sig, ok := f.Type().(*types.Signature); ok && sig.Recv() != nil {
 		_, isIfaceMethod = sig.Recv().Type().Underlying().(*types.Interface)
 	}
+	if isIfaceMethod {
+		if tok, ok := e.S.IfacePrims[f.Name()]; ok {
+			t := &node{kind: "tok", text: tok}
+			e.tokOf[c] = t
+			return t
+		}
+	}
 	if e.S.Inline != nil && e.S.Inline(f) && !isIfaceMethod {
 		fn := e.C.FnOf(f)
 		if fn == nil || fn.Decl.Body == nil {
@@ -408,14 +440,71 @@ func (e *Extractor) callToken(info *types.Info, c *ast.CallExpr) *node {
 		e.depth++
 		saveObj, saveVal := e.tagVar, e.tagVal
 		e.tagVar, e.tagVal = nil, nil
-		n := e.block(fn.Pkg.TypesInfo, fn.Decl.Body.List)
+		n := e.block(fn.Pkg.TypesInfo, earlyReturnToElse(fn.Decl.Body.List))
 		e.tagVar, e.tagVal = saveObj, saveVal
 		e.depth--
 		stripRets(n)
+		e.inlineRes[c] = e.resultBinds(fn)
 		return n
 	}
 	e.carrierCheck(info, c, name)
 	return nil
+}
+
+// earlyReturnToElse rewrites `if c { A; return }; rest` as
+// `if c { A; return } else { rest }` (recursively): inside an inlined helper a
+// return only skips the rest of the helper, which is what the else branch says.
+func earlyReturnToElse(stmts []ast.Stmt) []ast.Stmt {
+	for i, s := range stmts {
+		ifs, ok := s.(*ast.IfStmt)
+		if !ok || ifs.Else != nil || len(ifs.Body.List) == 0 || i == len(stmts)-1 {
+			continue
+		}
+		if _, isRet := ifs.Body.List[len(ifs.Body.List)-1].(*ast.ReturnStmt); !isRet {
+			continue
+		}
+		rest := earlyReturnToElse(stmts[i+1:])
+		n := &ast.IfStmt{If: ifs.If, Init: ifs.Init, Cond: ifs.Cond, Body: ifs.Body,
+			Else: &ast.BlockStmt{Lbrace: stmts[i+1].Pos(), List: rest, Rbrace: stmts[len(stmts)-1].End()}}
+		out := append([]ast.Stmt{}, stmts[:i]...)
+		return append(out, n)
+	}
+	return stmts
+}
+
+// resultBinds collects the bindings of the first result of an inlined helper
+// over its return statements (a primitive call returned directly, a bound
+// local, a tracked field).
+func (e *Extractor) resultBinds(fn *core.Fn) []string {
+	info := fn.Pkg.TypesInfo
+	var out []string
+	core.Inspect(fn.Decl.Body, func(n ast.Node) bool {
+		ret, ok := n.(*ast.ReturnStmt)
+		if !ok || len(ret.Results) == 0 {
+			return true
+		}
+		switch r := ast.Unparen(ret.Results[0]).(type) {
+		case *ast.CallExpr:
+			if t := e.tokOf[r]; t != nil {
+				if t.bind == "" {
+					t.bind = e.newBind()
+				}
+				out = mergeAliases(out, []string{t.bind})
+			} else if b, ok := e.inlineRes[r]; ok {
+				out = mergeAliases(out, b)
+			}
+		case *ast.Ident:
+			if b, ok := e.binds[info.Uses[r]]; ok {
+				out = mergeAliases(out, b)
+			}
+		case *ast.SelectorExpr:
+			if fv := core.FieldOf(info, r); fv != nil && e.S.Fields[fv.Name()] {
+				out = mergeAliases(out, []string{"." + fv.Name()})
+			}
+		}
+		return true
+	})
+	return out
 }
 
 // stripRets removes return markers from an inlined helper's term (a return
@@ -499,6 +588,14 @@ func (e *Extractor) bindResult(info *types.Info, lhs ast.Expr, toks []*node, rhs
 			return
 		}
 	}
+	if call, ok := ast.Unparen(rhs).(*ast.CallExpr); ok {
+		if b, ok := e.inlineRes[call]; ok {
+			if len(b) > 0 {
+				e.binds[obj] = b
+			}
+			return
+		}
+	}
 	// rhs is directly a primitive call: bind to the last token
 	if call, ok := ast.Unparen(rhs).(*ast.CallExpr); ok && len(toks) > 0 {
 		last := toks[len(toks)-1]
@@ -551,6 +648,12 @@ func (e *Extractor) callIsPrim(info *types.Info, c *ast.CallExpr) bool {
 	f := core.CalleeFunc(info, c)
 	if f == nil {
 		return false
+	}
+	if sig, ok := f.Type().(*types.Signature); ok && sig.Recv() != nil {
+		if _, isIface := sig.Recv().Type().Underlying().(*types.Interface); isIface {
+			_, ok := e.S.IfacePrims[f.Name()]
+			return ok
+		}
 	}
 	n := core.FuncName(f)
 	_, a := e.S.Prims[n]
@@ -608,12 +711,20 @@ func (e *Extractor) refOf(info *types.Info, x ast.Expr) (string, bool) {
 func (e *Extractor) condKey(info *types.Info, cond ast.Expr) (key string, swap bool) {
 	if be, ok := ast.Unparen(cond).(*ast.BinaryExpr); ok && (be.Op == token.NEQ || be.Op == token.EQL) {
 		for _, p := range [][2]ast.Expr{{be.X, be.Y}, {be.Y, be.X}} {
-			fv := core.FieldOf(info, p[0])
-			if fv == nil || !e.S.Fields[fv.Name()] {
+			name := ""
+			if fv := core.FieldOf(info, p[0]); fv != nil && e.S.Fields[fv.Name()] {
+				name = "." + fv.Name()
+			} else if id, ok := ast.Unparen(p[0]).(*ast.Ident); ok {
+				// a local that so far only holds the tracked field
+				if b := e.binds[info.Uses[id]]; len(b) == 1 && strings.HasPrefix(b[0], ".") {
+					name = b[0]
+				}
+			}
+			if name == "" {
 				continue
 			}
 			if v, ok := core.IntConst(info, p[1]); ok && v == 0 {
-				return "." + fv.Name() + "!=0", be.Op == token.EQL
+				return name + "!=0", be.Op == token.EQL
 			}
 		}
 	}
@@ -639,6 +750,64 @@ func (e *Extractor) tagTest(info *types.Info, cond ast.Expr) (val bool, ok bool)
 		}
 	}
 	return false, false
+}
+
+// ifChainSwitch rewrites `if v == A {..} else if v == B {..} [else {..}]` (two
+// or more comparisons of the same expression with integer constants) as the
+// equivalent switch statement, so that both spellings give the same term.
+func (e *Extractor) ifChainSwitch(info *types.Info, x *ast.IfStmt) *ast.SwitchStmt {
+	if x.Init != nil {
+		return nil
+	}
+	if _, ok := e.tagTest(info, x.Cond); ok {
+		return nil
+	}
+	var tag ast.Expr
+	var clauses []ast.Stmt
+	cur := x
+	for {
+		be, ok := ast.Unparen(cur.Cond).(*ast.BinaryExpr)
+		if !ok || be.Op != token.EQL || cur.Init != nil {
+			return nil
+		}
+		l, c := be.X, be.Y
+		if _, isC := core.IntConst(info, c); !isC {
+			l, c = be.Y, be.X
+		}
+		if _, isC := core.IntConst(info, c); !isC {
+			return nil
+		}
+		if _, isC := core.IntConst(info, l); isC {
+			return nil
+		}
+		if tag == nil {
+			tag = l
+		} else if !pat.Same(info, tag, l) {
+			return nil
+		}
+		clauses = append(clauses, &ast.CaseClause{Case: cur.Pos(), List: []ast.Expr{c}, Body: cur.Body.List})
+		switch el := cur.Else.(type) {
+		case *ast.IfStmt:
+			cur = el
+			continue
+		case *ast.BlockStmt:
+			clauses = append(clauses, &ast.CaseClause{Case: el.Pos(), Body: el.List})
+		}
+		break
+	}
+	if len(clauses) < 2 || tag == nil {
+		return nil
+	}
+	n := 0
+	for _, cl := range clauses {
+		if cl.(*ast.CaseClause).List != nil {
+			n++
+		}
+	}
+	if n < 2 {
+		return nil
+	}
+	return &ast.SwitchStmt{Switch: x.Pos(), Tag: tag, Body: &ast.BlockStmt{Lbrace: x.Pos(), List: clauses, Rbrace: x.End()}}
 }
 
 func (e *Extractor) stmt(info *types.Info, s ast.Stmt) *node {
@@ -699,6 +868,9 @@ func (e *Extractor) stmt(info *types.Info, s ast.Stmt) *node {
 		e.undec("%s: %s is outside the enumerated idioms", e.C.Pos(x.Pos()), x.Tok)
 		return nil
 	case *ast.IfStmt:
+		if sw := e.ifChainSwitch(info, x); sw != nil {
+			return e.stmt(info, sw)
+		}
 		out := seq()
 		if x.Init != nil {
 			out.kids = append(out.kids, e.stmt(info, x.Init))
@@ -747,6 +919,7 @@ func (e *Extractor) stmt(info *types.Info, s ast.Stmt) *node {
 			return out
 		}
 		// a pure error exit guarded by a non-error condition (validation) is not grammar
+		key, swap := e.condKey(info, x.Cond) // before the branches re-bind the variables it mentions
 		thenN := e.block(info, x.Body.List)
 		elseN := e.block(info, els)
 		if e.errorExit(info, x.Body) {
@@ -756,7 +929,6 @@ func (e *Extractor) stmt(info *types.Info, s ast.Stmt) *node {
 		if thenN.empty() && elseN.empty() {
 			return out
 		}
-		key, swap := e.condKey(info, x.Cond)
 		if swap {
 			thenN, elseN = elseN, thenN
 		}
